@@ -46,7 +46,7 @@ type ChildSpec struct {
 }
 
 type TransitionSpec struct {
-	Outcome string // ok | refuse | error | hang
+	Outcome string // ok | refuse | error | hang | crash (the device process dies while handling the request; the call fails without a state)
 	DelayMs int
 }
 
@@ -207,6 +207,16 @@ func (d *device) Transition(ctx context.Context, req *pb.TransitionRequest) (*pb
 		case <-ctx.Done():
 		}
 		return nil, status.Error(codes.Unavailable, "device gone")
+	case "crash":
+		if p := d.devicePid(); p > 0 {
+			syscall.Kill(p, syscall.SIGKILL)
+		}
+		// the caller sees the failure after the executor had time to notice that its child is gone
+		select {
+		case <-time.After(400 * time.Millisecond):
+		case <-ctx.Done():
+		}
+		return nil, status.Error(codes.Unavailable, "transport is closing")
 	case "refuse":
 		return &pb.TransitionReply{Trigger: pb.StateChangeTrigger_DEVICE_INTENTIONAL, State: cur, TransitionEvent: req.TransitionEvent, Ok: false}, nil
 	case "error":
